@@ -37,7 +37,6 @@ func VerifC04History(strategy int, k int) {
 	failsSince := 0    // failed responses since the last ejection
 	row := 0           // failed responses in a row
 	probeInFlight := false
-	lateProbe := false // a probe that was in flight across an ejection completed OK inside the window
 
 	inWindow := func() bool { return ejected && now-ejectedAt < win }
 
@@ -70,10 +69,6 @@ func VerifC04History(strategy int, k int) {
 				continue
 			}
 			probeInFlight = false
-			wasIn := inWindow()
-			if wasIn {
-				lateProbe = true
-			}
 			wasHealthy := b.IsHealthy
 			lb.processHealthCheckResponse(b, &http.Response{StatusCode: http.StatusOK})
 			verifrt.Assert(verifrt.Implies(wasHealthy, b.IsHealthy), "a successful probe never ejects")
@@ -95,11 +90,9 @@ func VerifC04History(strategy int, k int) {
 			verifrt.Advance(time.Duration(dt))
 			now += dt
 		case 6:
-			verifrt.Known("C04-late-probe-readmits", lateProbe)
 			got := lb.findHealthyBackend(r)
 			verifrt.Assert(verifrt.Implies(inWindow(), got == nil), "an ejected backend receives no traffic during its unhealthy window")
 		case 7:
-			verifrt.Known("C04-late-probe-readmits", lateProbe)
 			in := inWindow()
 			infos := lb.ListBackends()
 			verifrt.Assert(verifrt.Implies(in, !infos[0].Healthy), "admin API never reports an ejected backend as healthy")
@@ -136,7 +129,6 @@ func VerifC04Recovery(strategy int, n int) {
 			served = true
 		}
 	}
-	verifrt.Known("C04-no-recovery-without-probing", strategy >= 2)
 	verifrt.Assert(served, "after the unhealthy window the backend receives traffic again (no active checks)")
 }
 
